@@ -77,6 +77,14 @@ pub fn futex_wake(addr: usize, n: i32) -> isize {
     unsafe { syscall!(FUTEX, addr, FUTEX_WAKE_PRIVATE, n, 0, 0, 0) as isize }
 }
 
+/// FUTEX_WAKE without the private flag: this is what rusl::futex::futex_wake (and therefore every
+/// tiny-std Mutex/RwLock unlock) issues, and what matches tiny-std's waits (rusl's futex_wait
+/// computes `FUTEX_WAIT & flags` = 0, a process-shared wait).
+#[inline]
+pub fn futex_wake_shared(addr: usize, n: i32) -> isize {
+    unsafe { syscall!(FUTEX, addr, 1, n, 0, 0, 0) as isize }
+}
+
 /// 0 woken, -EAGAIN (-11) value differs, -ETIMEDOUT (-110), -EINTR (-4)
 #[inline]
 pub fn futex_wait(addr: usize, val: u32, timeout_us: u64) -> isize {
